@@ -167,7 +167,7 @@ func init() {
 		Title: "Shutdown always completes: no hang, no panic, channels closed",
 		Explain: "Decides structural necessary conditions of clean shutdown: WaitGroup Add/Done pairing of the fan-out helpers (C12.pairing; the pipeline groups are covered by C01/C03/C07 rules that this property shares); a frozen table of close() sites per channel field with their once/defer attributes, so that a second closer or a closer outside its sync.Once is reported (C12.close-sites); the close/wait hand-shakes of client, broker, offset manager, heartbeat, partition consumer and subscription manager (C12.handshakes); every blocking select of the long-running loops has a case on its component's shutdown channel (C12.dying); for channels closed by their only sender, the sender table (C12.who-sends); the closure handed to a sync.Once in a Close path has no return that skips teardown its normal exit performs (C12.once-complete); every subscription of a broker worker that gives up is handed back to its dispatcher exactly once, dying ones included — the hand-over is what lets a closing partition consumer finish (C03.redispatch, shared). " +
 			"NOT covered: absence of deadlock in general, send/close races that need a happens-before argument (consumerGroup.errors, partitionConsumer.errors/trigger).",
-		Rules: []func(*Ctx){c12Pairing, c12CloseSites, c12OnceComplete, c12Handshakes, c12Dying, c12WhoSends, c01Shutdown, c01Markers, c03Redispatch},
+		Rules: []func(*Ctx){c12Pairing, c12CloseSites, c12OnceComplete, c12LockReleased, c12Handshakes, c12Dying, c12WhoSends, c01Shutdown, c01Markers, c03Redispatch},
 	})
 }
 
@@ -422,6 +422,98 @@ func describeStep(p *Program, it Item) string {
 		return "the receive from " + describe(x.X)
 	}
 	return "a teardown step"
+}
+
+// c12LockReleased: a mutex taken in a function is released on every path out of it (directly or by a defer);
+// a path that returns with the lock held blocks every later operation on the component, Close included.
+func c12LockReleased(c *Ctx) {
+	p := c.P
+	rule := "C12.lock-released"
+	c.Doc(rule, "every sync.Mutex/RWMutex Lock()/RLock() in the two packages is followed on every path to the function's end by the matching Unlock()/RUnlock() on the same mutex, or a defer of it is registered in the function; the one tabled hand-off is Broker.Open, whose spawned goroutine defers the Unlock")
+	c.Floor(rule, 60)
+	lockOp := func(cc *ssa.CallCommon) (string, ssa.Value) {
+		f := cc.StaticCallee()
+		if f == nil || len(cc.Args) == 0 {
+			return "", nil
+		}
+		switch f.String() {
+		case "(*sync.Mutex).Lock", "(*sync.RWMutex).Lock":
+			return "Lock", cc.Args[0]
+		case "(*sync.RWMutex).RLock":
+			return "RLock", cc.Args[0]
+		case "(*sync.Mutex).Unlock", "(*sync.RWMutex).Unlock":
+			return "Unlock", cc.Args[0]
+		case "(*sync.RWMutex).RUnlock":
+			return "RUnlock", cc.Args[0]
+		}
+		return "", nil
+	}
+	for _, fn := range p.Fns {
+		if p.inFile(fn, "mockbroker.go") {
+			continue
+		}
+		fi := Info(fn)
+		fi.Each(func(it Item) {
+			cl, ok := it.In.(*ssa.Call)
+			if !ok {
+				return
+			}
+			kind, recv := lockOp(&cl.Call)
+			if kind != "Lock" && kind != "RLock" {
+				return
+			}
+			want := map[string]string{"Lock": "Unlock", "RLock": "RUnlock"}[kind]
+			rel := func(x Item) bool {
+				switch y := x.In.(type) {
+				case *ssa.Call:
+					k, r := lockOp(&y.Call)
+					return k == want && samePath(r, recv)
+				case *ssa.Defer:
+					k, r := lockOp(&y.Call)
+					return k == want && samePath(r, recv)
+				}
+				return false
+			}
+			deferred := len(fi.Find(func(x Item) bool { _, isD := x.In.(*ssa.Defer); return isD && rel(x) })) > 0
+			esc, path := false, []*ssa.BasicBlock(nil)
+			if !deferred {
+				esc, path = WholeFn(fn).From(it.After()).Escape(rel)
+			}
+			if esc && p.Name(fn) == "Broker.Open" {
+				// hand-off: a goroutine started after the Lock defers the Unlock of the same field
+				handed := false
+				for _, g := range WholeFn(fn).From(it.After()).Find(func(x Item) bool { _, isGo := x.In.(*ssa.Go); return isGo }) {
+					for _, a := range g.In.(*ssa.Go).Call.Args {
+						if body := p.FuncOfValue(a); body != nil {
+							for _, cand := range append([]*ssa.Function{body}, body.AnonFuncs...) {
+								if hasItem(cand, func(x Item) bool {
+									d, isD := x.In.(*ssa.Defer)
+									if !isD {
+										return false
+									}
+									k, r := lockOp(&d.Call)
+									if k != want {
+										return false
+									}
+									fa, ok1 := r.(*ssa.FieldAddr)
+									fb, ok2 := recv.(*ssa.FieldAddr)
+									return ok1 && ok2 && fa.Field == fb.Field
+								}) {
+									handed = true
+								}
+							}
+						}
+					}
+				}
+				if handed {
+					c.OK(rule, fn, "lock-handed-to-goroutine", cl, "Open keeps the lock for the connecting goroutine, which defers the Unlock")
+					return
+				}
+			}
+			c.Check(!esc, rule, fn, "released:"+kind, cl, "the lock is released on every path (or by a defer)",
+				"a path leaves the function with the mutex still locked: every later operation on this component, Close included, blocks forever", path)
+		})
+	}
 }
 
 func c12Handshakes(c *Ctx) {
